@@ -76,6 +76,9 @@ pub struct Scenario {
     /// the second folder's program is erroneous too (only the first program's documents are judged)
     #[serde(default)]
     pub folder_b_broken: bool,
+    /// how main / target / base are written: 0 relative, 1 absolute paths, 2 file:// URLs
+    #[serde(default)]
+    pub setting_style: u8,
 }
 
 fn sentinel_bytes(scn: &Scenario) -> Vec<u8> {
@@ -139,11 +142,20 @@ fn target_name(scn: &Scenario) -> String {
     }
 }
 
-fn config_text(scn: &Scenario) -> String {
+/// A setting as it is written in the configuration or on the command line.
+fn setting(scn: &Scenario, root: &std::path::Path, rel: &str) -> String {
+    match scn.setting_style {
+        1 => format!("{}/{rel}", root.display()),
+        2 => format!("file://{}/{rel}", root.display()),
+        _ => rel.to_string(),
+    }
+}
+
+fn config_text(scn: &Scenario, root: &std::path::Path) -> String {
     let file_target = if scn.config_mode == 2 { "ignored.yaml".to_string() } else { target_name(scn) };
-    let mut config = format!("[api]\nmain = \"{}\"\ntarget = \"{file_target}\"\n", main_path(scn));
+    let mut config = format!("[api]\nmain = \"{}\"\ntarget = \"{}\"\n", setting(scn, root, &main_path(scn)), setting(scn, root, &file_target));
     if scn.with_base {
-        config.push_str("base = \"base.yaml\"\n");
+        config.push_str(&format!("base = \"{}\"\n", setting(scn, root, "base.yaml")));
     }
     config
 }
@@ -157,9 +169,10 @@ fn execute_with_planted_target(c: &Cfg, world: &World, scn: &Scenario, _tp: &std
 }
 
 fn execute_inner(c: &Cfg, world: &World, scn: &Scenario, planted: Option<&[u8]>) -> Outcome {
-    let config = config_text(scn);
-    world.reset(&config, &scn.files);
+    world.reset("", &scn.files);
     let root = world.root.canonicalize().expect("root");
+    let config = config_text(scn, &root);
+    world.write("oal.toml", &config);
     let rootp = format!("{}/", root.display());
     if scn.with_base {
         let b = if scn.fault == Fault::MalformedBase { "{ not: [yaml" } else { BASE_YAML };
@@ -217,9 +230,10 @@ fn execute_inner(c: &Cfg, world: &World, scn: &Scenario, planted: Option<&[u8]>)
     }
     match scn.config_mode {
         0 => {
-            cmd.args(["-m", &main_path(scn), "-t", &target_arg]);
+            let targ = if target_arg.starts_with('/') { target_arg.clone() } else { setting(scn, &root, &target_arg) };
+            cmd.args(["-m", &setting(scn, &root, &main_path(scn)), "-t", &targ]);
             if scn.with_base {
-                cmd.args(["-b", "base.yaml"]);
+                cmd.args(["-b", &setting(scn, &root, "base.yaml")]);
             }
         }
         1 => {
@@ -879,6 +893,7 @@ pub fn run(seed: u64, run: u64) -> Report {
         long_sentinel: wl.chance(1, 2),
         binary_sentinel: wl.chance(1, 4),
         old_sources: wl.chance(1, 3),
+        setting_style: *wl.pick(&[0, 0, 0, 1, 2]),
         folder_b_broken: folder_b && sr.chance(1, 2),
     };
     if scn.folder_b_broken {
